@@ -37,6 +37,10 @@ pub enum Head {
     /// `\ifodd <text>` / `\ifcase <text>` where the operand is written with a sign string (`--3`, `+-3`, `- 3`)
     IfOddText(&'static str),
     IfCaseText(&'static str),
+    /// `\ifeof n` on a stream that was never opened (§501: true)
+    IfEof(i64),
+    /// a conditional the harness implements itself (`\ifht` true, `\ifhf` false), without operand
+    IfHarness(bool),
     /// `~ .. \else .. \fi` where `\let~=\iftrue` (the active character `~` is the conditional)
     ActiveTrue,
     /// `\iftrue .. \else .. ~` / `\iffalse .. \else .. ~` where `\let~=\fi`
@@ -66,7 +70,8 @@ impl Variant {
     /// §501-§509: truth of the condition (None for `\ifcase`)
     pub fn truth(&self) -> Option<bool> {
         Some(match self.head {
-            Head::IfTrue | Head::AliasTrue | Head::ActiveTrue | Head::TrueActiveFi => true,
+            Head::IfTrue | Head::AliasTrue | Head::ActiveTrue | Head::TrueActiveFi | Head::IfEof(_) => true,
+            Head::IfHarness(b) => b,
             Head::IfFalse | Head::FalseActiveFi => false,
             Head::IfNum(a, r, b) => match r {
                 '<' => a < b,
@@ -135,6 +140,11 @@ impl Variant {
             Head::IfTrue | Head::TrueActiveFi => out.push(Tok::Cs("iftrue")),
             Head::IfFalse | Head::FalseActiveFi => out.push(Tok::Cs("iffalse")),
             Head::ActiveTrue => out.push(ACTIVE),
+            Head::IfEof(n) => {
+                out.push(Tok::Cs("ifeof"));
+                Self::number(n, out);
+            }
+            Head::IfHarness(b) => out.push(Tok::Cs(if b { "ifht" } else { "ifhf" })),
             Head::AliasTrue => out.push(Tok::Cs("myif")),
             Head::IfNum(a, r, b) => {
                 out.push(Tok::Cs("ifnum"));
@@ -225,6 +235,9 @@ pub struct TreeFacts {
     pub brace_in_skipped_text: bool,
     pub live_branch_ended_by_or: bool,
     /// `~` stands for \iftrue / for \fi somewhere in the tree (at most one of the two per tree), live / in skipped text
+    pub skipped_ifeof: bool,
+    pub skipped_harness_condition: bool,
+    pub live_ifeof_or_harness_condition: bool,
     pub active_if: bool,
     pub active_fi: bool,
     pub active_alias_live: bool,
@@ -246,6 +259,12 @@ impl Cond {
         r.facts.depth = r.facts.depth.max(depth);
         if !live && self.v.is_alias() {
             r.facts.aliased_conditional_in_skipped_text = true;
+        }
+        match self.v.head {
+            Head::IfEof(_) if !live => r.facts.skipped_ifeof = true,
+            Head::IfHarness(_) if !live => r.facts.skipped_harness_condition = true,
+            Head::IfEof(_) | Head::IfHarness(_) => r.facts.live_ifeof_or_harness_condition = true,
+            _ => {}
         }
         if self.v.uses_active_if() || self.v.uses_active_fi() {
             r.facts.active_if |= self.v.uses_active_if();
@@ -577,6 +596,10 @@ pub enum Meaning {
     IfNum,
     IfOdd,
     IfCase,
+    /// `\ifeof`: scans a stream number; every stream is closed in this model, so the test is true
+    IfEofClosed,
+    /// a conditional without operand whose value is fixed
+    IfConst(bool),
     Else,
     Fi,
     Or,
@@ -613,6 +636,9 @@ pub fn primitives() -> Env {
         ("ifnum", Meaning::IfNum),
         ("ifodd", Meaning::IfOdd),
         ("ifcase", Meaning::IfCase),
+        ("ifeof", Meaning::IfEofClosed),
+        ("ifht", Meaning::IfConst(true)),
+        ("ifhf", Meaning::IfConst(false)),
         ("else", Meaning::Else),
         ("fi", Meaning::Fi),
         ("or", Meaning::Or),
@@ -795,7 +821,7 @@ impl<'a> Expander<'a> {
                 self.stack.push((t, is_cs && keep));
                 Ok(())
             }
-            Meaning::IfTrue | Meaning::IfFalse | Meaning::IfNum | Meaning::IfOdd | Meaning::IfCase => self.conditional(m),
+            Meaning::IfTrue | Meaning::IfFalse | Meaning::IfNum | Meaning::IfOdd | Meaning::IfCase | Meaning::IfEofClosed | Meaning::IfConst(_) => self.conditional(m),
             Meaning::Fi => self.fi_or_else(FI_CODE),
             Meaning::Else => self.fi_or_else(ELSE_CODE),
             Meaning::Or => self.fi_or_else(OR_CODE),
@@ -815,7 +841,7 @@ impl<'a> Expander<'a> {
                 Meaning::Fi => FI_CODE,
                 Meaning::Else => ELSE_CODE,
                 Meaning::Or => OR_CODE,
-                Meaning::IfTrue | Meaning::IfFalse | Meaning::IfNum | Meaning::IfOdd | Meaning::IfCase => {
+                Meaning::IfTrue | Meaning::IfFalse | Meaning::IfNum | Meaning::IfOdd | Meaning::IfCase | Meaning::IfEofClosed | Meaning::IfConst(_) => {
                     l += 1;
                     continue;
                 }
@@ -842,6 +868,15 @@ impl<'a> Expander<'a> {
         let b = match m {
             Meaning::IfTrue => true,
             Meaning::IfFalse => false,
+            Meaning::IfConst(b) => b,
+            Meaning::IfEofClosed => {
+                // §501 if_eof_code: scan_four_bit_int; b:=(read_open[cur_val]=closed)
+                let n = self.scan_int()?;
+                if !(0..=15).contains(&n) {
+                    return Err(Stop::BadNumber("Bad number (a stream number must be in 0..15)"));
+                }
+                true
+            }
             Meaning::IfNum => {
                 // §503
                 let a = self.scan_int()?;
